@@ -62,6 +62,23 @@ Section ReceiverSpec.
 End ReceiverSpec.
 Arguments more_msgs {A B}. Arguments more_reply {U}. Arguments final_reply {A B U}.
 
+(* ---------- one request per registration ---------- *)
+(* nothing follows a message not flagged More: the request is complete with it, whatever the plugin
+   answers to it *)
+Fixpoint no_resend (flags : list bool) : bool :=
+  match flags with
+  | [] => true
+  | m :: r => if m then no_resend r else is_nil r
+  end.
+
+(* a handler's error: a gRPC status with its code (8 = ResourceExhausted, 13 = Internal, 14 = Unavailable,
+   ...) or any other Go error *)
+Inductive herror := HStatus (code : Z) | HPlain.
+(* the stub hands the handler's error to the runtime; the model of the runtime (like plugin.synchronize)
+   does not distinguish the kinds *)
+Definition forget_error {A B U} (he : list A -> list B -> list U + herror) : list A -> list B -> option (list U) :=
+  fun ps cs => match he ps cs with inl u => Some u | inr _ => None end.
+
 (* ---------- the receiver over several connections of one stub value ---------- *)
 Section SessionSpec.
   Variables A B : Type.
